@@ -15,7 +15,11 @@ def run_correspondence(fns, n_per_fn, rng, make=None, spec=None):
     t0 = time.time()
     impl = [c.thunk() for c in cases]
     t1 = time.time()
-    model = run_model([(c.fn, c.margs) for c in cases])
+    midx = [i for i, c in enumerate(cases) if c.margs is not None]
+    mres = run_model([(cases[i].fn, cases[i].margs) for i in midx])
+    model = list(impl)                      # cases without a model request (margs None) count as agreeing
+    for i, r in zip(midx, mres):
+        model[i] = r
     t2 = time.time()
     stats = {}
     disagreements = []
@@ -34,12 +38,12 @@ def run_correspondence(fns, n_per_fn, rng, make=None, spec=None):
         if io[0] == 0 and len(io) >= 5 and c.ret_mpf:
             if io[2] == 0: st["special_or_zero_result"] += 1
             else: nontrivial = True
-            if c.prec and sum(1 for a in c.margs if isinstance(a, int) and a.bit_length() > c.prec) > 0 and io[2] != 0:
+            if c.prec and c.margs is not None and sum(1 for a in c.margs if isinstance(a, int) and a.bit_length() > c.prec) > 0 and io[2] != 0:
                 st["rounded_inexact"] += 1
         elif io[0] == 0:
             nontrivial = True
         if nontrivial:
-            distinct.add((c.fn, tuple(c.margs)))
+            distinct.add((c.fn, tuple(c.margs) if c.margs is not None else repr(c.desc)))
         if c.exact is not None: st["spec_checked"] += 1
         bad = spec(c, io)
         if bad:
@@ -53,5 +57,5 @@ def sample_cases(res, k=6):
     out = []
     step = max(1, len(res["cases"]) // k)
     for c, io in list(zip(res["cases"], res["impl"]))[::step][:k]:
-        out.append({"fn": c.fn, "args": small(c.margs), "impl_out": small(io)})
+        out.append({"fn": c.fn, "args": small(c.margs if c.margs is not None else repr(c.desc)), "impl_out": small(io)})
     return out
